@@ -372,6 +372,9 @@ func submit(p *workflow.Plan) (submitErr error, setupErr error) {
 }
 
 func checkClone(c Case) (res vprop.Result) {
+	if c.Engine.Mode != engOff {
+		return checkEngine(c) // the original goes through the real engine first (engine_test.go)
+	}
 	// ---- classification
 	if c.State.Class < stFresh || c.State.Class > stFailed || len(c.Plan.Blocks) == 0 {
 		res.Skip = true
